@@ -79,7 +79,7 @@ CHECKS = {
          "DESIGN.md §3 C10"),
  "C13": ("model_checking",
          "explicit-state BFS over the full application on real-store branches + ABCI conformance replay",
-         "Every sequence of <= 4 (quick) / 5 (thorough) events over the 7 parameter-update message types x authority {gov, user, empty, garbage} x 35 payloads (valid, invalid, partially valid: share pushing the sum to 1, burn share 1, replacement breaking the MAIN ordering rule, minters missing the current id, unordered, gap, linear last, denom changes) interleaved with blocks that move the minter to the next period and a create-pool message. Every state: stored parameters of all three modules validate and contain the minter's current period. Every transition: non-gov authority is rejected, a rejected update leaves all parameter bytes unchanged, an accepted one stores exactly the requested value, the vesting denom never changes while pools exist, no other message changes parameters. Withdraw / send-all events empty the pool without removing its record; three proposals whose second message fails must leave no trace; every authority payload is also run through a real governance proposal (submit, vote, EndBlocker) and must agree with the shortcut.",
+         "Every sequence of <= 4 (quick) / 5 (thorough) events over the 7 parameter-update message types x authority {gov, user, empty, garbage} x 43 payloads (valid, invalid, partially valid: share pushing the sum to 1, burn share 1, replacement breaking the MAIN ordering rule, minters missing the current id, unordered, gap, linear last, denom changes) interleaved with blocks that move the minter to the next period and a create-pool message. Every state: stored parameters of all three modules validate (the minter's id and end-time rules are also stated independently of the module's own validator) and contain the minter's current period. Every transition: non-gov authority is rejected, a rejected update leaves all parameter bytes unchanged, an accepted one stores exactly the requested value, the vesting denom never changes while pools exist, no other message changes parameters. Withdraw / send-all events empty the pool without removing its record; three proposals whose second message fails must leave no trace; every authority payload is also run through a real governance proposal (submit, vote, EndBlocker) and must agree with the shortcut.",
          "Authority messages are executed the way x/gov executes them (router handler on a cache branch).",
          "DESIGN.md §3 C13"),
  "C15": ("model_checking",
@@ -94,7 +94,7 @@ CHECKS = {
          "DESIGN.md §3 C20"),
  "C11": ("model_checking",
          "exhaustive history set (BFS trees of six scenarios) executed by independent OS processes through ABCI, transcripts compared",
-         "The maximal BFS-tree histories of six scenarios (supply c01, vesting c05, parameters c10 and c13, signature c15, lineage c17: ~7 400 histories quick, depth 3; depth 4 thorough) are each executed by R independent OS processes (R=2 quick, 4 thorough) strictly through InitChain / BeginBlock / DeliverTx (real signed transactions) / EndBlock / Commit; per ABCI response the deterministic fields (code, codespace, data, gas wanted/used, events) and every Commit app hash must be identical. A seventh scenario gives every collection the distributor walks >= 2 elements. Replica 0 is a plain node; every other replica is restarted after every block (new application object over the same database) and runs CheckTx + Simulate around every delivered transaction, and starts 1.3 s later; histories include proposals whose second message fails.",
+         "The maximal BFS-tree histories of six scenarios (supply c01, vesting c05, parameters c10 and c13, signature c15, lineage c17: ~7 400 histories quick, depth 3; depth 4 thorough) are each executed by R independent OS processes (R=2 quick, 4 thorough) strictly through InitChain / BeginBlock / DeliverTx (real signed transactions) / EndBlock / Commit; per ABCI response the deterministic fields (code, codespace, data, gas wanted/used, events) and every Commit app hash must be identical. In addition the whole v1.2.0 upgrade handler is executed on 400 pre-upgrade states by processes started with different TZ values (two in UTC, others in zones with daylight saving) and must leave the same state. A seventh scenario gives every collection the distributor walks >= 2 elements. Replica 0 is a plain node; every other replica is restarted after every block (new application object over the same database) and runs CheckTx + Simulate around every delivered transaction, and starts 1.3 s later; histories include proposals whose second message fails.",
          "Exhaustive over the listed histories, not over Go map iteration orders (stated limit): a state-affecting map iteration is missed by one history with probability <= 2^-(R-1). Log/Info strings excluded (ABCI declares them non-deterministic).",
          "DESIGN.md §3 C11"),
  "C12": ("model_checking",
